@@ -25,7 +25,7 @@ func init() {
 		Shards: func(tier string) int { return 16 },
 		Run:    run,
 		Replay: replay,
-		Rule: "cases are JSON texts from five duplicate-free families (number literal x placement x terminator; string item sequences x placement; every single \\uXXXX escape; " +
+		Rule: "cases are JSON texts from duplicate-free families (number literal x placement x terminator; string item sequences x placement; every single \\uXXXX escape; strings spelled like other tokens, plain and with one character escaped; " +
 			"gens.Trees rendered compact and spaced; duplicate-key objects), case index modulo shard count; each text is executed by oj.Parser (whole, 1-byte reader), " +
 			"oj.Tokenizer (whole, 1-byte reader), gen.Parser (whole, 1-byte reader), sen.Parser (whole, 1-byte reader) and sen.Tokenizer (whole, 1-byte reader) and compared with the reference, never with another front-end; " +
 			"distinct_nontrivial = texts containing a number literal of more than one character, a string item other than a plain ASCII character, or a container with at least one element",
@@ -231,6 +231,7 @@ func run(c *core.Ctx) {
 	runStrings(j, next)
 	runUEscapes(j, next)
 	runStringPairs(j, next)
+	runLookalikes(j, next)
 	runStructure(j, next)
 	runDupKeys(j, next)
 	c.Add("reference_cross_checks", j.xchk)
@@ -358,6 +359,36 @@ func runStrings(j *judge, next func() bool) {
 		}
 	})
 	c.Add("string_texts", n)
+}
+
+// runLookalikes: strings spelled like another token (a literal, a number, a
+// container), written plainly and with one of their characters as a \uXXXX
+// escape (the slow string path), in every placement: they stay strings.
+func runLookalikes(j *judge, next func() bool) {
+	var n int64
+	for _, w := range []string{"true", "false", "null", "0", "-1", "12", "1.5", "1e5", "-0.5E-3", "[]", "{}", "[1]", "tru", "nul", "+1", "NaN", "Infinity"} {
+		spellings := []string{w}
+		for i := 0; i < len(w); i++ {
+			spellings = append(spellings, w[:i]+"\\u"+hex4(int(w[i]), hexLower)+w[i+1:])
+		}
+		for si, sp := range spellings {
+			for p := range strPlaces {
+				if !next() {
+					continue
+				}
+				pl := &strPlaces[p]
+				text := []byte(pl.pre + sp + pl.post)
+				cl := "lookalike:" + w
+				if si > 0 {
+					cl += ":escaped"
+				}
+				j.runText(text, &meta{family: "strings", item: cl, ctx: pl.ctx}, nil)
+				j.c.Nontrivial()
+				n++
+			}
+		}
+	}
+	j.c.Add("lookalike_texts", n)
 }
 
 const hexLower, hexUpper = "0123456789abcdef", "0123456789ABCDEF"
